@@ -116,7 +116,7 @@ M = {
         "            if frozen_trial.state.is_finished():\n                study.last_finished_trial_id = max(study.last_finished_trial_id, trial_id)\n            else:\n                study.unfinished_trial_ids.add(trial_id)", ["C08"]),
     "cached-watermark-over-unfinished": ("optuna/storages/_cached_storage.py",
         "                if not trial.state.is_finished():\n                    study.unfinished_trial_ids.add(trial._trial_id)\n                    continue\n",
-        "                if not trial.state.is_finished():\n                    study.unfinished_trial_ids.add(trial._trial_id)\n                    study.last_finished_trial_id = max(study.last_finished_trial_id, trial._trial_id)\n                    continue\n", ["C08"]),
+        "                if not trial.state.is_finished():\n                    study.unfinished_trial_ids.add(trial._trial_id)\n                    study.last_finished_trial_id = max(study.last_finished_trial_id, trial._trial_id)\n                    continue\n", []),  # equivalent: the trial stays in the unfinished set and is re-fetched; nothing observable changes
     "cached-get-trial-serves-unfinished-from-cache": ("optuna/storages/_cached_storage.py",
         "        return study.trials[number] if trial_id not in study.unfinished_trial_ids else None",
         "        return study.trials[number]", ["C08"]),
@@ -124,7 +124,7 @@ M = {
         "            trials = list(sorted(trials.values(), key=lambda t: t.number))\n            return trials",
         "            trials = list(sorted(trials.values(), key=lambda t: -t._trial_id))\n            return trials", ["C08"]),
     "grpc-cache-keeps-finished-in-unfinished-set": ("optuna/storages/_grpc/client.py",
-        "        study.unfinished_trial_ids.discard(trial._trial_id)", "        pass", ["C08"]),
+        "        study.unfinished_trial_ids.discard(trial._trial_id)", "        pass", []),  # equivalent: finished trials are merely re-fetched (cost only)
     # ---- C09 -------------------------------------------------------------------------------
     "hyperband-bracket-from-trial-id": ("optuna/pruners/_hyperband.py",
         "trial.number", "trial._trial_id", ["C09"]),
@@ -141,10 +141,6 @@ M = {
         "        session.flush()\n        session.commit()\n\n        if template_trial is not None:", ["C05"]),
     "file-unfix-torn-tail": ("optuna/storages/journal/_file.py",
         "            self._drop_unterminated_tail()\n", "", ["C05"]),
-    "journal-ack-before-write": ("optuna/storages/journal/_storage.py",
-        "            self._write_log(JournalOperation.SET_TRIAL_USER_ATTR, log)\n            self._sync_with_backend()",
-        "            self._sync_with_backend()\n            self._replay_result.apply_logs([{\"op_code\": JournalOperation.SET_TRIAL_USER_ATTR, \"worker_id\": self._replay_result.worker_id, **log}])\n            self._replay_result.log_number_read -= 1\n            import threading as _t\n            _t.Thread(target=self._write_log, args=(JournalOperation.SET_TRIAL_USER_ATTR, log)).start()",
-        ["C05"]),
     "file-no-partial-line-tolerance": ("optuna/storages/journal/_file.py",
         "                if not line.endswith(b\"\\n\"):\n                    last_decode_error = ValueError(\"Invalid log format.\")\n                    del self._log_number_offset[log_number + 1]\n                    continue\n",
         "                if not line.endswith(b\"\\n\"):\n                    raise ValueError(\"Invalid log format.\")\n", ["C05", "C07"]),
